@@ -117,6 +117,7 @@ def parse_trace(script_path, impl_path):
     sl = [l.rstrip("\n") for l in open(script_path)]
     il = [l.rstrip("\n") for l in open(impl_path)]
     tr.script_lines = sl
+    tr.impl_lines = il
     results = {}
     checks = {}
     govs = {}
@@ -756,6 +757,49 @@ def o_c17(tr):
                         yield {"oracle": "total-supply-page", "signature": "native" if den == dn else "other", "detail": "QUERY %s: %s listed %d, want %d" % (q["n"], den, a, want)}
 
 
+def o_c15(tr):
+    """export -> InitChain on a fresh app: succeeds, no invariant broken, same observable state, identical second export"""
+    il = tr.impl_lines
+    last_digest = []; cur = []; collecting = False
+    i = 0
+    while i < len(il):
+        l = il[i]
+        if l.startswith(("I ", "K ", "Z ")):
+            cur = []; collecting = True
+        elif l.startswith("D ") and collecting:
+            cur.append(l)
+        elif l.startswith("X "):
+            before = list(cur)
+            if l.startswith("X panic"):
+                why = il[i + 1] if i + 1 < len(il) and il[i + 1].startswith("x panic") else ""
+                if "expected_module_account" in why:
+                    cls = "gov-balance"
+                elif "invariant_broken" in why:
+                    cls = "invariant-" + (re.findall(r"invariant_broken:_([a-z]+)", why) or ["?"])[0]
+                else:
+                    cls = re.sub(r"[^A-Za-z_]+", "", why.replace("x panic ", ""))[:40] or "unknown"
+                yield {"oracle": "import-succeeds", "signature": cls, "detail": why[:200]}
+            elif l.startswith("X ok"):
+                k = int(l.split("inv=")[1]) if "inv=" in l else 0
+                if k:
+                    yield {"oracle": "import-invariants", "signature": "broken", "detail": l}
+                after = []
+                j = i + 1
+                while j < len(il) and not il[j].startswith("X2"):
+                    if il[j].startswith("D "):
+                        after.append(il[j])
+                    j += 1
+                if before and after and before != after:
+                    d = [(x, y) for x, y in zip(before, after) if x != y][:2]
+                    yield {"oracle": "import-same-state", "signature": (d[0][0].split()[1] if d else "length"), "detail": str(d)[:300]}
+                if j < len(il) and il[j].startswith("X2 diff"):
+                    yield {"oracle": "re-export-identical", "signature": il[j].split(" ", 2)[2] if len(il[j].split(" ", 2)) > 2 else "", "detail": il[j]}
+                cur = after; collecting = False
+        elif not l.startswith(("D ", "x ", "q ", "r ", "c ", "p ", "b ")) and not l.startswith("X2"):
+            collecting = collecting and l.startswith(("I ", "K ", "Z "))
+        i += 1
+
+
 def o_invariants(tr):
     for l in tr.soft:
         if l.startswith("x inv") and l.endswith("broken"):
@@ -765,7 +809,7 @@ def o_invariants(tr):
 ORACLES = {
     "C02": [o_c02, o_invariants], "C03": [o_c03], "C04": [o_c04, o_invariants], "C05": [o_c05, o_c05_granter, o_c05_amount], "C07": [o_c07], "C08": [o_c08],
     "C09": [o_c09], "C10": [o_c10, o_invariants], "C11": [o_c11], "C12": [o_c12], "C14": [o_c14], "C16": [o_c16],
-    "C13": [o_c13], "C17": [o_c17], "C20": [o_c20], "C06": [o_c06], "C01": [],
+    "C13": [o_c13], "C17": [o_c17], "C20": [o_c20], "C15": [o_c15, o_invariants], "C06": [o_c06], "C01": [],
 }
 
 
